@@ -87,6 +87,7 @@ type Built struct {
 	nextFn   int
 	FnErr    error // error returned by user functions (nil)
 	InFnView map[string][]ViewEntry
+	Handles  map[string]*getoptions.GetOpt // command path key -> the GetOpt NewCommand returned
 }
 
 type FnCall struct {
@@ -437,6 +438,7 @@ func BuildOps(p *ProgDef, ops []Op) (b *Built, err error) {
 	}
 	b.Opt = g
 	handles := map[string]*getoptions.GetOpt{"": g}
+	b.Handles = handles
 	for _, op := range ops {
 		pk := pathKey(op.Path)
 		h := handles[pk]
